@@ -332,6 +332,25 @@ theorem profiles_perm {p p' : Proj} (h : Partition p) (e : SameProj p p') (P : L
   · rw [lookup_withProfiles_services h, lookup_withProfiles_services h', find_perm h e]
   · rw [lookup_withProfiles_disabled h, lookup_withProfiles_disabled h', find_perm h e]
 
+/-- `WithServicesEnabled` is a function of the project and the (ordered) list of names -/
+theorem enable_perm {p p' : Proj} (h : Partition p) (e : SameProj p p') (names : List String) :
+    LookEq (withServicesEnabled p names).services (withServicesEnabled p' names).services ∧
+    LookEq (withServicesEnabled p names).disabled (withServicesEnabled p' names).disabled ∧
+    (withServicesEnabled p names).profiles = (withServicesEnabled p' names).profiles := by
+  have es := lookEq_of_perm e.1 h.1
+  have ed := lookEq_of_perm e.2.1 h.2.1
+  have ep : enableProfiles p names = enableProfiles p' names := by
+    unfold enableProfiles
+    rw [e.2.2.1]
+    congr 1
+    funext acc n
+    have : has n p.services = has n p'.services := by unfold has; rw [es n]
+    rw [this, ed n]
+  unfold withServicesEnabled
+  split
+  · exact ⟨es, ed, e.2.2.1⟩
+  · rw [ep]; exact profiles_perm h e _
+
 /-- `WithServicesDisabled` is a function of the project and the (ordered) list of names -/
 theorem disable_perm {p p' : Proj} (h : Partition p) (e : SameProj p p') (names : List String) :
     LookEq (withServicesDisabled p names).services (withServicesDisabled p' names).services ∧
